@@ -99,6 +99,22 @@ EXPLANATION = EXPLANATION.replace("predict_stable is a corollary (embeddings are
     "predict_stable IS stated (C03_predict_stable*, Proofs/C03Predict.v: frozen ids composed with C09's Model/Predict.v through pred_view, tied to the id arrays by "
     "C03_pred_view_is_id_arrays and to the translated predict_* methods by C03_predict_stable_of_source) and observed on the implementation by the predict_stages part of kind prepare "
     "with thetas really learned by train_model.main.  Not covered: the variational grid model's GridComboSample.predict_* (outside every link).")
+# ---- the hold-out linked at the id / mapping level (gap review g1, C03 gap 2) ----
+THEOREMS.update({
+    "C03_model_is_source_holdout": "the WHOLE function create_plate_balanced_holdout_set_among_masked_plates re-translated on this run with `screen` the model Screen (ids and mappings) "
+                                   "and both Screen(...) calls the model's constructor on the keyword arguments the call sites pass equals Holdout.balanced_holdout_ids = the "
+                                   "selection the loop computes from the recorded rng.choice answers, then holdout_split",
+    "C03_source_holdout_is_split": "whatever the translated hold-out returns is holdout_split of the parent for a selection vector of the screen's length: every theorem about "
+                                   "holdout_split is a theorem about the translated hold-out",
+    "C03_source_holdout_keeps_mappings": "both halves the translated hold-out returns carry the parent's mappings verbatim and number their rows by them",
+    "C03_ids_frozen_of_source_full": "ids_frozen with every step a translated source function: translated hold-out, then any history of the translated reveal_plates / mask_screen / "
+                                     "unmask_screen (and save + load) on either half",
+})
+EXPLANATION += ("  HOLD-OUT LINK: configuration C03_BALANCED_HOLDOUT (harness/src_functions.py -> Generated/SrcHoldoutIds.v) re-translates create_plate_balanced_holdout_set_among_masked_plates "
+                "with the Screen(...) calls as the translator's keyword calls (C12's _SCREEN_CALL), so that both halves receive treatment_mapping=screen.treatment_mapping and "
+                "sample_mapping=screen.sample_mapping is READ FROM THE SOURCE (C11's link of the same function forgets ids).  Trusted there: the loop primitives of C11_BALANCED_HOLDOUT "
+                "read on the rows of the screen, `~v` = map negb, `a[m]` = boolean-mask selection at each array type, np.ones(np.count_nonzero(v)) = repeat true (vcount v), the Screen "
+                "attribute reads of C12.")
 # ---- source-translation links of the command-line wrappers (Model/Cli.v, Generated/SrcCli.v) ----
 THEOREMS.update({
     'C03_model_is_source_cli_prepare_retrospective_simulation': 'the translation of the whole function prepare_retrospective_simulation.main regenerated on this run equals, for every record L of library functions and all parsed arguments, Cli.cli_prepare, which fixes the ORDER: filter, generator from --seed, initial plate (initial generator) or mask_screen, plate generator if any, reveal of a random unobserved plate when there is no initial generator, smoother if any, the hold-out split LAST on the smoothed screen, training and test screens saved; every drawing step receives the generator state its predecessor left',
